@@ -1,3 +1,26 @@
+/-
+  C08 — Streams deliver every item exactly once, in order, to every reader.
+  Property theorems.  Models: EinoV/Model/C08.lean (components), EinoV/Model/C08Net.lean
+  (trees of components, run by the oracle).  Source facts: EinoV/Gen/FactsC08.lean
+  (regenerated from /repo/schema/{stream,select}.go on every run).
+
+  Every theorem quantifies over *all* event lists of the component's transition system
+  (any interleaving of sends, receives and closes of any number of children / sources);
+  an event list is a behaviour iff the run function returns `some` (an event that would
+  block, or that the API contract forbids, is not enabled).
+
+  Not proved (stated here so that the gap stays visible):
+  * `tree_close_propagates` — ∀ trees built with conv/copy/merge over pipes, after every
+    reader the caller holds is closed and every forwarder has noticed, every pipe's reading
+    side is closed, exactly once.  Proved per component (`send_reports_closed`,
+    `copy_source_closed_once`), shown on instances below, and asserted on every generated
+    tree by the harness at tear-down (a tree where the *model* does not close a pipe aborts
+    the run as a model error); there is no induction over arbitrary trees.
+  * `no_deadlock` for whole trees — only the per-component progress lemmas
+    (`pipe_progress`, `copy_progress`, `merge_progress`).
+  * "told on its next send" is false through a forwarding goroutine:
+    `writer_told_late_through_forwarder` (known finding).
+-/
 import EinoV.Model.C08
 import EinoV.Model.C08Net
 import EinoV.Proofs.C08
@@ -7,8 +30,346 @@ import EinoV.Expected.C08
 namespace EinoV.C08
 open EinoV.Gen
 
+/-- the `parentStreamReader` facts as extracted from the source -/
+def copyFactsGen : CopyFacts :=
+  { fillOnce := FactsC08.peekFillsUnderOnce, closeIncr := FactsC08.closeIncrements,
+    closeAtLen := FactsC08.closeAtLen }
+
+/-! ## source facts -/
+
+/-- The regenerated facts are the values the theorems are proved for and the oracle runs with. -/
 theorem facts_match :
-    FactsC08.receiveN = Expected.C08.receiveN ∧ FactsC08.maxSelectNum = Expected.C08.maxSelectNum := by
+    FactsC08.receiveN = Expected.C08.receiveN ∧ FactsC08.maxSelectNum = Expected.C08.maxSelectNum ∧
+    copyFactsGen = Expected.C08.copyFacts ∧ FactsC08.closeIdempotent = true := by
   decide
+
+/-- **receiveN_table.** The table in select.go is indexed by `len(chosenList)`, has
+    `maxSelectNum + 1` entries, entry `n` selects over exactly `ss[chosenList[0..n)]` and
+    reports the index it received from; above `maxSelectNum` remaining sources
+    `multiStreamReader.recv` switches to `reflect.Select`. -/
+theorem receiveN_table :
+    FactsC08.receiveNByLen = true ∧ FactsC08.reflectAboveMax = true ∧
+    FactsC08.receiveN.length = FactsC08.maxSelectNum + 1 ∧
+    ∀ n, n ≤ FactsC08.maxSelectNum →
+      FactsC08.receiveN[n]? = some ((List.range n).map fun j => (j, j)) := by
+  refine ⟨by decide, by decide, by decide, ?_⟩
+  have h : ∀ n ∈ List.range (FactsC08.maxSelectNum + 1),
+      FactsC08.receiveN[n]? = some ((List.range n).map fun j => (j, j)) := by decide
+  intro n hn
+  exact h n (by simp; omega)
+
+theorem table_ok : tblOK FactsC08.receiveN FactsC08.maxSelectNum = true := by decide
+
+/-! ## pipe -/
+
+/-- **pipe_fifo.** After any event list on a pipe of any capacity: the items received so
+    far followed by the buffered ones are exactly the accepted items, in order (so the
+    received sequence is a prefix of the sent one: nothing lost, duplicated or reordered);
+    `io.EOF` is returned only after the writer closed and every accepted item was received;
+    no item is ever returned after `io.EOF`. -/
+theorem pipe_fifo (cap : Nat) (evs : List PEv) (p : Pipe) (h : PHist)
+    (hr : Pipe.runH (Pipe.new cap, {}) evs = some (p, h)) :
+    h.accepted = h.recvd ++ p.buf ∧ h.recvd <+: h.accepted ∧
+    (h.eof = true → p.sendClosed = true ∧ h.recvd = h.accepted) ∧ h.itemAfterEof = false := by
+  have inv := (PInv.init cap).run hr
+  refine ⟨inv.fifo, ?_, ?_, inv.noItemAfterEof⟩
+  · rw [inv.fifo]; exact List.prefix_append _ _
+  · intro he
+    have := inv.eofClosed he
+    refine ⟨this.1, ?_⟩
+    have hf : h.accepted = h.recvd ++ p.buf := inv.fifo
+    have hb : p.buf = [] := this.2
+    rw [hb, List.append_nil] at hf
+    exact hf.symm
+
+/-- **send_reports_closed.** Once the reader closed, no `Send` is accepted any more: every
+    `Send` (that the contract allows) returns `closed = true` at once, whatever is buffered. -/
+theorem send_reports_closed (cap : Nat) (evs : List PEv) (p : Pipe) (h : PHist)
+    (hr : Pipe.runH (Pipe.new cap, {}) evs = some (p, h)) :
+    h.lateAccept = false ∧
+    (p.recvClosed = true → p.sendClosed = false → ∀ i, p.send i = some (p, true)) := by
+  refine ⟨((PInv.init cap).run hr).noLate, ?_⟩
+  intro hrc hsc i
+  simp [Pipe.send, hrc, hsc]
+
+/-- pipe part of *no deadlock*: a `Recv` is enabled as soon as something was sent or the
+    writer closed; a `Send` as soon as there is room or the reader closed. -/
+theorem pipe_progress (p : Pipe) :
+    ((p.buf ≠ [] ∨ p.sendClosed = true) → (p.recv).isSome = true) ∧
+    (p.sendClosed = false → (p.buf.length < p.cap ∨ p.recvClosed = true) → ∀ i, (p.send i).isSome = true) := by
+  constructor
+  · intro h
+    unfold Pipe.recv
+    cases hb : p.buf with
+    | nil => rcases h with h | h <;> simp_all
+    | cons x r => simp
+  · intro hs h i
+    unfold Pipe.send
+    rcases h with h | h <;> simp [hs, h]
+    split <;> simp
+
+/-! ## convert -/
+
+/-- **convert_itemwise.** Reading a converted stream to the end over a source that delivers
+    the items `l` yields exactly `l` mapped item by item, in order, without the items the
+    convert function marked `ErrNoValue`; a source error is passed on (never swallowed as
+    no-value), an error returned by the convert function is delivered as that item's error. -/
+theorem convert_itemwise (g : Nat → ConvOut) (l : List Item) :
+    convDrain g l = l.filterMap (convItem g) ∧
+    (∀ i, i.err ≠ 0 → convItem g i = some ⟨0, i.err⟩) ∧
+    (∀ i, i.err = 0 → g i.chunk = .skip → convItem g i = none) ∧
+    (∀ i c e, i.err = 0 → g i.chunk = .fail c e → convItem g i = some ⟨c, e⟩) ∧
+    (∀ i v, i.err = 0 → g i.chunk = .val v → convItem g i = some ⟨v, 0⟩) := by
+  refine ⟨convDrain_eq g l, ?_, ?_, ?_, ?_⟩ <;> intros <;> simp_all [convItem]
+
+/-! ## copy -/
+
+theorem copyFacts_good : copyFactsGen = goodCopy := by decide
+
+/-- **copy_each_sees_all.** `n ≥ 1` copies over any source reader, any interleaving of
+    `Recv`/`Close` of the children and of anything the environment does to the source:
+    the items child `i` has received are a prefix of the items read from the source (each
+    source item is read once, by whichever child gets there first, and shared); if child `i`
+    saw `io.EOF` it has received *all* of them, and the source itself had reported `io.EOF`. -/
+theorem copy_each_sees_all {σ : Type} (S : Src σ) (n : Nat) (hn : 0 < n) (s0 : σ)
+    (evs : List (CEv σ)) (y : CopySys σ)
+    (hr : (CopySys.init n s0).run copyFactsGen S evs = some y) (i : Nat) :
+    itemsOf i y.outs <+: y.pulled.filterMap Res.item? ∧
+    (eofOf i y.outs = true → itemsOf i y.outs = y.pulled.filterMap Res.item? ∧ Res.eof ∈ y.pulled) := by
+  rw [copyFacts_good] at hr
+  have inv := (CInv.init n hn s0).run hn S hr
+  rw [inv.pulledLog]
+  constructor
+  · cases hc : y.core.cursors[i]? with
+    | none => rw [(inv.outRange i hc).1]; exact List.nil_prefix
+    | some o =>
+      cases o with
+      | none => exact inv.closedPre i hc
+      | some k => rw [(inv.cur i k hc).2]; exact List.take_prefix _ _
+  · intro he
+    have := inv.eofAll i he
+    exact ⟨this.2, inv.eofMem.mp this.1⟩
+
+/-- **copy_source_closed_once.** The source is closed at most once, and it has been closed
+    exactly when every one of the `n` children is closed (closing a child twice changes
+    nothing). -/
+theorem copy_source_closed_once {σ : Type} (S : Src σ) (n : Nat) (hn : 0 < n) (s0 : σ)
+    (evs : List (CEv σ)) (y : CopySys σ)
+    (hr : (CopySys.init n s0).run copyFactsGen S evs = some y) :
+    y.core.srcClosed ≤ 1 ∧
+    (y.core.srcClosed = 1 ↔ ∀ i, i < n → y.core.cursors[i]? = some none) := by
+  rw [copyFacts_good] at hr
+  have inv := (CInv.init n hn s0).run hn S hr
+  have hc := inv.srcC
+  have hl := inv.len
+  constructor
+  · rw [hc]; split <;> omega
+  · rw [hc, inv.cnt, ← hl, ← count_none_eq_length]
+    split <;> simp_all
+
+/-- copy part of *no deadlock*: an open child can always receive when its next element is
+    already in the shared list, or the end was seen, or the source can deliver. -/
+theorem copy_progress {σ : Type} (S : Src σ) (y : CopySys σ) (i k : Nat)
+    (hc : y.core.cursors[i]? = some (some k))
+    (h : k < y.core.log.length ∨ y.core.eofSeen = true ∨ (S.recv y.src).isSome = true) :
+    (y.step copyFactsGen S (.recv i)).isSome = true := by
+  rw [copyFacts_good]
+  simp only [CopySys.step, CopyCore.peekLocal, goodCopy, hc]
+  cases hl : y.core.log[k]? with
+  | some it => simp
+  | none =>
+    have := List.getElem?_eq_none_iff.mp hl
+    by_cases he : y.core.eofSeen = true
+    · simp [he]
+    · rcases h with h | h | h
+      · omega
+      · exact absurd h he
+      · cases hs : S.recv y.src with
+        | none => simp [hs] at h
+        | some rs => simp [he]
+
+/-! ## merge -/
+
+/-- **merge_per_source_order.** Any number of sources with any capacities, any event list
+    (writers sending/closing, selects firing in any order the table allows): for every
+    source `k`, what the merged reader delivered from `k`, followed by what is still
+    buffered in `k`, is exactly what `k`'s writer got accepted, in order. -/
+theorem merge_per_source_order (caps : List Nat) (evs : List MEv) (m : MergeSt)
+    (hr : (MergeSt.init caps).run FactsC08.receiveN FactsC08.maxSelectNum evs = some m)
+    (k : Nat) (p : Pipe) (hk : m.srcs[k]? = some p) :
+    ofSrc k m.acc = ofSrc k m.outs ++ p.buf ∧ ofSrc k m.outs <+: ofSrc k m.acc := by
+  have inv := (MInv.init caps).run table_ok hr
+  have := inv.fifo k p hk
+  exact ⟨this, by rw [this]; exact List.prefix_append _ _⟩
+
+/-- **merge_eof_after_all.** If the merged reader returned `io.EOF`, every source's writer
+    had closed and every accepted item of every source had been delivered. -/
+theorem merge_eof_after_all (caps : List Nat) (evs : List MEv) (m : MergeSt)
+    (hr : (MergeSt.init caps).run FactsC08.receiveN FactsC08.maxSelectNum evs = some m)
+    (he : m.eofOut = true) (k : Nat) (p : Pipe) (hk : m.srcs[k]? = some p) :
+    p.sendClosed = true ∧ ofSrc k m.outs = ofSrc k m.acc := by
+  have inv := (MInv.init caps).run table_ok hr
+  have hc := inv.eofEmpty he
+  have hd := inv.dropped k p hk (by simp [hc])
+  have hf := inv.fifo k p hk
+  simp only [hd.2, List.append_nil] at hf
+  exact ⟨hd.1, hf.symm⟩
+
+/-- merge part of *no deadlock*: with the select table of the source, every source that is
+    still in `chosenList` has a case of its own, so if it is ready (an item buffered, or
+    closed) a step of `recv` is enabled; and with no source left `recv` returns `io.EOF`. -/
+theorem merge_progress (m : MergeSt) :
+    (∀ c sa p, m.chosen[c]? = some sa → m.srcs[sa]? = some p →
+        (p.buf ≠ [] ∨ p.sendClosed = true) →
+        (m.step FactsC08.receiveN FactsC08.maxSelectNum (.sel c)).isSome = true) ∧
+    (m.chosen = [] → (m.step FactsC08.receiveN FactsC08.maxSelectNum .eof).isSome = true) := by
+  constructor
+  · intro c sa p hc hs hready
+    have hlt : c < m.chosen.length := by
+      rcases List.getElem?_eq_some_iff.mp hc with ⟨h, _⟩; exact h
+    have hcase : (selCases FactsC08.receiveN FactsC08.maxSelectNum m.chosen.length)[c]? = some (c, c) := by
+      rw [selCases_ok table_ok]
+      simp [List.getElem?_map, List.getElem?_range hlt]
+    simp only [MergeSt.step, hcase, hc, hs]
+    have := (pipe_progress p).1 hready
+    cases hrv : p.recv with
+    | none => simp [hrv] at this
+    | some pr =>
+      obtain ⟨p', r⟩ := pr
+      cases r <;> simp
+  · intro h
+    simp [MergeSt.step, h]
+
+/-! ## trees of readers (the network model the oracle runs) -/
+
+/-- the facts of the network model as extracted from the source -/
+def factsGen : Facts :=
+  { copy := copyFactsGen, tbl := FactsC08.receiveN, maxSel := FactsC08.maxSelectNum,
+    fwdCloses := FactsC08.convForwarderClosesSource && FactsC08.childForwarderClosesSource }
+
+/-- Both forwarding goroutines (`toStream`) close their stream for sending and close their
+    source reader when they exit, and leave their loop on `io.EOF` and on `closed`; together
+    with `facts_match` the oracle runs the model with exactly the extracted facts. -/
+theorem net_facts_match :
+    FactsC08.convForwarderClosesSource = true ∧ FactsC08.childForwarderClosesSource = true ∧
+    factsGen.copy = Expected.C08.facts.copy ∧ factsGen.tbl = Expected.C08.facts.tbl ∧
+    factsGen.maxSel = Expected.C08.facts.maxSel ∧ factsGen.fwdCloses = Expected.C08.facts.fwdCloses := by
+  decide
+
+/-- what `Send` on pipe `p` may return after the trace `ops` (one entry per model state that
+    explains the trace): 0 may block, 1 false, 2 true, 3 either -/
+def sendCodesAfter (F : Facts) (ops : List Op) (p : Nat) : Option (List Nat) :=
+  match runOps F 60 [{}] 0 ops with
+  | .ok (nets, _) => some (nets.map fun n => sendCode F 60 n p)
+  | .error _ => none
+
+def drainBoundsAfter (F : Facts) (ops : List Op) (p : Nat) : Option (List (Option Nat)) :=
+  match runOps F 60 [{}] 0 ops with
+  | .ok (nets, _) => some (nets.map fun n => drainBound F 60 n p)
+  | .error _ => none
+
+/-- copy(3) of merge(convert(pipe 0), pipe 1); two copies closed: both writers still accepted -/
+def treeOps : List Op :=
+  [.pipe 2, .pipe 0, .conv 0 ⟨100, 2, 0, 3, 1⟩, .merge [2, 1], .copy 4 3, .close 6, .close 7]
+
+/-- **tree_close_propagates (instances only).** In this tree closing the last copy closes
+    the merged reader; pipe 1 (merged directly) reports it on the next `Send`. -/
+example : sendCodesAfter factsGen treeOps 1 = some [0] ∧
+    sendCodesAfter factsGen (treeOps ++ [.close 8]) 1 = some [2] := by decide
+
+/-- **writer_told_late_through_forwarder (negation witness for "told on its next send").**
+    Pipe 0 is read through a convert that was merged, i.e. through a forwarding goroutine.
+    After the last reader derived from it is closed the model still allows `Send` to return
+    `closed = false` (code 3): the forwarder closes the pipe only when it next tries to
+    forward.  It is told after at most `cap + 6` more accepted items (`drainBound`).  The
+    harness replays this tree on the real code (`mode = fwd-delay`), where the first `Send`
+    after the close returns false deterministically. -/
+theorem writer_told_late_through_forwarder :
+    sendCodesAfter factsGen (treeOps ++ [.close 8]) 0 = some [3] ∧
+    drainBoundsAfter factsGen (treeOps ++ [.close 8]) 0 = some [some 8] ∧
+    (runOps factsGen 60 [{}] 0 (treeOps ++ [.close 8, .send 0 ⟨7, 7⟩ false, .send 0 ⟨8, 8⟩ true])).toOption.isSome = true := by
+  decide
+
+/-- If the forwarders did not close their source the writer would never be told. -/
+theorem forwarder_must_close_source :
+    drainBoundsAfter { factsGen with fwdCloses := false } (treeOps ++ [.close 8]) 0 = some [none] := by
+  decide
+
+/-- a trace through the whole tree: items of both pipes arrive through the merge in either
+    order, every copy sees the same sequence, the no-value item (chunk 2) is dropped, the
+    convert's own error (chunk 1 ↦ error 101) is delivered -/
+example : (runOps factsGen 60 [{}] 0
+    [.pipe 2, .pipe 1, .conv 0 ⟨100, 2, 0, 3, 1⟩, .merge [2, 1], .copy 4 2,
+     .send 0 ⟨2, 0⟩ false, .send 0 ⟨1, 0⟩ false, .send 1 ⟨50, 0⟩ false,
+     .recv 6 (.item ⟨50, 0⟩), .recv 7 (.item ⟨50, 0⟩), .recv 7 (.item ⟨101, 101⟩), .recv 6 (.item ⟨101, 101⟩),
+     .closeSend 0, .closeSend 1, .recv 6 .eof, .recv 7 .eof]).toOption.isSome = true := by decide
+
+/-- … and a reordered or duplicated delivery is not a behaviour of the model -/
+example : (runOps factsGen 60 [{}] 0
+    [.pipe 2, .copy 0 2, .send 0 ⟨1, 0⟩ false, .send 0 ⟨2, 0⟩ false,
+     .recv 2 (.item ⟨1, 0⟩), .recv 3 (.item ⟨2, 0⟩)]).toOption.isSome = false := by decide
+
+/-! ## non-vacuity: concrete non-trivial behaviours -/
+
+/-- a capacity-2 pipe: two sends, a receive, the third send, writer close, drain, EOF -/
+example : (Pipe.runH (Pipe.new 2, {})
+    [.send ⟨1, 0⟩, .send ⟨2, 7⟩, .recv, .send ⟨3, 0⟩, .closeSend, .recv, .recv, .recv]).map
+      (fun ph => (ph.2.recvd, ph.2.eof)) = some ([⟨1, 0⟩, ⟨2, 7⟩, ⟨3, 0⟩], true) := by decide
+
+/-- a full pipe blocks the writer; a closed reader is reported -/
+example : Pipe.runH (Pipe.new 1, {}) [.send ⟨1, 0⟩, .send ⟨2, 0⟩] = none := by decide
+example : (Pipe.runH (Pipe.new 1, {}) [.send ⟨1, 0⟩, .closeRecv, .send ⟨2, 0⟩]).map
+    (fun ph => (ph.2.accepted, ph.2.refused)) = some ([⟨1, 0⟩], 1) := by decide
+
+/-- three copies over a list source, interleaved reads, an early close and EOF -/
+example : ((CopySys.init 3 [⟨1, 0⟩, ⟨2, 0⟩]).run copyFactsGen listSrc
+    [.recv 0, .recv 1, .recv 0, .close 2, .recv 0, .recv 1, .recv 1, .close 0, .close 1]).map
+      (fun y => (itemsOf 0 y.outs, itemsOf 1 y.outs, [eofOf 0 y.outs, eofOf 1 y.outs, eofOf 2 y.outs],
+                 [y.pulled.length, y.core.srcClosed]))
+    = some ([⟨1, 0⟩, ⟨2, 0⟩], [⟨1, 0⟩, ⟨2, 0⟩], [true, true, false], [3, 1]) := by decide
+
+/-- a merge of two sources, both orders of delivery are behaviours -/
+example : ((MergeSt.init [1, 1]).run FactsC08.receiveN FactsC08.maxSelectNum
+    [.send 0 ⟨1, 0⟩, .send 1 ⟨2, 0⟩, .sel 1, .sel 0, .closeSend 0, .closeSend 1, .sel 0, .sel 0, .eof]).map
+      (fun m => (m.outs, m.eofOut)) = some ([(1, ⟨2, 0⟩), (0, ⟨1, 0⟩)], true) := by decide
+example : ((MergeSt.init [1, 1]).run FactsC08.receiveN FactsC08.maxSelectNum
+    [.send 0 ⟨1, 0⟩, .send 1 ⟨2, 0⟩, .sel 0, .sel 1]).map
+      (fun m => m.outs) = some [(0, ⟨1, 0⟩), (1, ⟨2, 0⟩)] := by decide
+
+/-- six sources: above `maxSelectNum` every remaining source can still be selected -/
+example : ((MergeSt.init [1, 1, 1, 1, 1, 1]).run FactsC08.receiveN FactsC08.maxSelectNum
+    [.send 5 ⟨9, 0⟩, .sel 5, .closeSend 5, .sel 5, .send 4 ⟨8, 0⟩, .sel 4]).map
+      (fun m => (m.outs, m.chosen)) = some ([(5, ⟨9, 0⟩), (4, ⟨8, 0⟩)], [0, 1, 2, 3, 4]) := by decide
+
+/-- convert: map, skip, own error, source error -/
+example : convDrain (fun v => if v = 2 then .skip else if v = 3 then .fail 30 5 else .val (v + 10))
+    [⟨1, 0⟩, ⟨2, 0⟩, ⟨3, 0⟩, ⟨4, 9⟩] = [⟨11, 0⟩, ⟨30, 5⟩, ⟨0, 9⟩] := by
+  rw [convDrain_eq]; decide
+
+/-! ## the other values of the facts break the property (negation witnesses) -/
+
+/-- Without `sync.Once` around the fill every child reads the source itself: the second
+    child misses the first item. -/
+theorem copy_without_once_loses_items :
+    ((CopySys.init 2 [⟨1, 0⟩, ⟨2, 0⟩]).run { copyFactsGen with fillOnce := false } listSrc
+      [.recv 0, .recv 1]).map (fun y => itemsOf 1 y.outs) = some [⟨2, 0⟩] := by decide
+
+/-- If `close` did not count the closed children the source would never be closed. -/
+theorem copy_without_count_never_closes_source :
+    ((CopySys.init 2 [⟨1, 0⟩]).run { copyFactsGen with closeIncr := false } listSrc
+      [.close 0, .close 1]).map (fun y => y.core.srcClosed) = some 0 := by decide
+
+/-- If the counter were compared with anything but the number of children the source would
+    be closed while a child still reads. -/
+theorem copy_wrong_comparison_closes_early :
+    ((CopySys.init 2 [⟨1, 0⟩]).run { copyFactsGen with closeAtLen := false } listSrc
+      [.close 0]).map (fun y => (y.core.srcClosed, y.core.cursors)) = some (1, [none, some 0]) := by decide
+
+/-- A select case that reports another index than the one it received from drops an open
+    source: the merged reader returns `io.EOF` while source 1 still holds an item. -/
+theorem merge_wrong_table_loses_source :
+    ((MergeSt.init [1, 1]).run [[], [(0, 0)], [(0, 1), (1, 1)]] 2
+      [.send 1 ⟨7, 0⟩, .closeSend 0, .sel 0, .closeSend 1, .sel 0, .eof]).map
+      (fun m => (m.eofOut, m.outs, m.srcs.map (·.buf))) = some (true, [], [[], [⟨7, 0⟩]]) := by decide
 
 end EinoV.C08
